@@ -981,6 +981,14 @@ def simple_provenance(fn, name):
     return out
 
 
+def cmp_text(node):
+    """canonical text of a comparison, operands of == / != in sorted order"""
+    if isinstance(node, ast.Compare) and len(node.ops) == 1 and isinstance(node.ops[0], (ast.Eq, ast.NotEq)):
+        a, b = sorted([ast.unparse(node.left).replace(" ", ""), ast.unparse(node.comparators[0]).replace(" ", "")])
+        return "%s%s%s" % (a, "==" if isinstance(node.ops[0], ast.Eq) else "!=", b)
+    return ast.unparse(node).replace(" ", "")
+
+
 def relation_table_rule(model, rep, rule):
     """_get_parents / _get_childs: an entry per node - the predecessor (successor) list when the node has any, -1 otherwise"""
     rel = model.rel("system")
@@ -1134,14 +1142,14 @@ def find_domain_rule(model, rep, r, rule):
         anc = [x for x in after if isinstance(x, ast.Assign) and isinstance(x.targets[0], ast.Name) and ast.unparse(x.value).replace(" ", "") == "rx.ancestors(self._g,%s)" % sel]
         if len(anc) == 1:
             AN = anc[0].targets[0].id
-            empties = [x for x in after if isinstance(x, ast.If) and ast.unparse(x.test).replace(" ", "") in ("%s==set()" % AN, "not%s" % AN, "len(%s)==0" % AN)
+            empties = [x for x in after if isinstance(x, ast.If) and cmp_text(x.test) in (cmp_text(ast.parse("%s==set()" % AN, mode="eval").body), "not%s" % AN, cmp_text(ast.parse("len(%s)==0" % AN, mode="eval").body))
                        and len(x.body) == 1 and isinstance(x.body[0], ast.Return) and ast.unparse(x.body[0].value).replace('"', "'") == "self._g[%s]._params['name']" % sel and not x.orelse]
             walks = []
             for lp in after:
                 if isinstance(lp, ast.For) and isinstance(lp.target, ast.Name) and is_name(lp.iter, AN) and len(lp.body) == 1 and isinstance(lp.body[0], ast.If):
                     i_ = lp.target.id
                     iff = lp.body[0]
-                    if ast.unparse(iff.test).replace(" ", "") in ("self._g.in_degree(%s)==0" % i_, "notself._g.in_degree(%s)" % i_) and len(iff.body) == 1 and isinstance(iff.body[0], ast.Return) \
+                    if cmp_text(iff.test) in (cmp_text(ast.parse("self._g.in_degree(%s)==0" % i_, mode="eval").body), "notself._g.in_degree(%s)" % i_) and len(iff.body) == 1 and isinstance(iff.body[0], ast.Return) \
                             and ast.unparse(iff.body[0].value).replace('"', "'") == "self._g[%s]._params['name']" % i_ and not iff.orelse:
                         walks.append(lp)
             good = len(empties) == 1 and len(walks) == 1 and empties[0].lineno < walks[0].lineno
